@@ -1,6 +1,7 @@
 (* C12 property theorems (statements only; proofs are `exact`/short compositions of Regex.v / Classes.v / Proofs.v). *)
 From Coq Require Import ZArith List Bool Arith Lia.
 From EP Require Import C13.Model Gen.C12Sets C12.Regex C12.Classes C12.Model C12.Proofs.
+From EP Require Gen.C12Shape.
 Import ListNotations.
 Open Scope Z_scope.
 
@@ -59,3 +60,9 @@ Example C12_nonvacuous :
   xsd_matches false true true (RCat (RQuant (RCls c) 2%nat (Some 3%nat)) (RChar 120)) [54; 55; 120] = true /\
   xsd_matches false true true (RCat (RQuant (RCls c) 2%nat (Some 3%nat)) (RChar 120)) [54; 120] = false.
 Proof. cbn zeta. split; [|vm_compute; repeat split; reflexivity]. apply cls_okb_ok. vm_compute. reflexivity. Qed.
+
+(* the statements of /repo that the hand model mirrors are present in the source as read on this run (T-data,
+   harness/shape.py -> Gen/C12Shape.v) *)
+Theorem C12_source_shape : Gen.C12Shape.shape_ok = true.
+Proof. reflexivity. Qed.
+Print Assumptions C12_source_shape.
